@@ -386,7 +386,7 @@ class OneRun:
         try:
             loop.run_until_complete(asyncio.wait_for(self._main(), timeout=120))
             self.outcome = "ok"
-        except Exception as ex:
+        except (Exception, asyncio.CancelledError) as ex:
             self.outcome = f"{type(ex).__name__}: {ex}"
             self.history = {"error": self.outcome}
         finally:
